@@ -888,12 +888,16 @@ def rng2(i): return ('r', lambda u, i=i: B("mul", u[i], C(2)), lambda u, i=i: B(
 TEMPLATES = ("chain", "bcast_gather", "diamond", "split_merge", "branch", "pipeline2d", "fan", "tri", "mixed")
 
 
-def gen_program(rng, template=None, max_inst=120, rich=True, tries=40):
-    """draw a well-formed program; returns Prog (p.template names the template used)"""
+def gen_program(rng, template=None, max_inst=120, rich=True, tries=40, **genattrs):
+    """draw a well-formed program; returns Prog (p.template names the template used).
+    template: one of TEMPLATES, or "keys" (parameter-space shapes, independent tasks; genattrs
+    allow_derived_param / allow_permuted switch its two special shapes)."""
     for _ in range(tries):
         r = rng.fork()
         t = template or r.pick(TEMPLATES)
         g = Gen(r, max_inst, rich)
+        for k, v in genattrs.items():
+            setattr(g, k, v)
         try:
             getattr(sys.modules[__name__], "_t_" + t)(g)
             g.finish_flows()
@@ -1105,12 +1109,14 @@ def _t_mixed(g):
         getattr(sys.modules[__name__], "_t_" + b)(g)
 
 
-def _t_keys(g, allow_derived_param=True, allow_permuted=True):
+def _t_keys(g):
     """C23: parameter-space shapes.  1-3 classes of independent tasks with 1-4 parameters: negative and
     expression bounds, steps, bounds that depend on earlier parameters (triangles, windows), derived locals
     in the nest; sometimes a parameter defined by an expression, sometimes a header order different from
     the definition order (both are reported by C23's oracle, see notes/findings)."""
     r = g.r
+    allow_derived_param = getattr(g, "allow_derived_param", True)
+    allow_permuted = getattr(g, "allow_permuted", True)
     for _ in range(r.range(1, 3)):
         c = Cls(next(g.names))
         g.p.classes.append(c)
